@@ -363,6 +363,63 @@ func TestC04Sampling(t *testing.T) {
 	name := Name
 	p := c04P
 	sub := "sampling/" + name
+	// Rejection-boundary inputs for ExpandA: (rho, nonce) whose SHAKE128 stream contains a 23-bit
+	// candidate equal to q (must be rejected) or q-1 (must be accepted). Found by enumeration with
+	// the reference; random seeds reach this with probability 2^-22 per candidate only.
+	hitsQ := 0
+	for sweep := 0; sweep < 4 && hitsQ < 2; sweep++ {
+		var rho [32]byte
+		vlib.ExpandInto(rho[:], uint64(vlib.Seed)*977+uint64(vlib.Shard)*31+uint64(sweep))
+		for nonce := 0; nonce < 1<<16; nonce++ {
+			in := append(append([]byte{}, rho[:]...), byte(nonce), byte(nonce>>8))
+			cls := ""
+			for _, c := range mldsa.RejNTTCandidates(in) {
+				if c == common.Q {
+					cls = "candidate=q"
+				} else if c == common.Q-1 && cls == "" {
+					cls = "candidate=q-1"
+				}
+			}
+			if cls == "" {
+				continue
+			}
+			if cls == "candidate=q" {
+				hitsQ++
+			}
+			vlib.Eval(sub)
+			vlib.NonTrivial(sub, "rejection-boundary/"+cls, in)
+			want := mldsa.RejNTTPoly(in)
+			var polys [5]common.Poly
+			PolyDeriveUniform(&polys[4], &rho, uint16(nonce))
+			variants := []*common.Poly{&polys[4]}
+			if DeriveX4Available {
+				for lane := 0; lane < 4; lane++ {
+					var ptr [4]*common.Poly
+					var nonces [4]uint16
+					for k := range ptr {
+						ptr[k] = new(common.Poly)
+						nonces[k] = uint16(nonce + 1 + k)
+					}
+					ptr[lane] = &polys[lane]
+					nonces[lane] = uint16(nonce)
+					PolyDeriveUniformX4(ptr, &rho, nonces)
+					variants = append(variants, &polys[lane])
+				}
+			}
+			for vi, got := range variants {
+				for i := range got {
+					if int64(got[i]) != want[i] {
+						what := "PolyDeriveUniform"
+						if vi > 0 {
+							what = "PolyDeriveUniformX4"
+						}
+						vlib.ReportDirect(t, "C04/sample/"+name+"/"+what, fmt.Sprintf("rho %x nonce %d (%s): coefficient %d = %d, specification %d", rho, nonce, cls, i, got[i], want[i]), map[string]interface{}{"rho": fmt.Sprintf("%x", rho), "nonce": nonce})
+						return
+					}
+				}
+			}
+		}
+	}
 	vlib.Check(t, vlib.N(150, 3000), func(t *rapid.T) {
 		vlib.Eval(sub)
 		var seed32 [32]byte
